@@ -2468,3 +2468,42 @@ def d_indexsplit( ctx ):
     if not found:
         raise AnalysisError( "dotdict_base.__setitem__: the branch that breaks a final name[index] segment ( `'[' in <segment>` ... eval ) not found" )
     return res
+
+
+@rule( 'T-BOOL', props=( 'C03', 'C01', 'C05' ), floor=6 )
+def t_bool( ctx ):
+    """BOOL.produce renders every value a BOOL Attribute can hold: False / 0 as 00, and any truthy octet 1..255 ( True, 1, the customary 0xFF
+    a Set Attribute Single stores raw ) as FF - evaluated on six values, the inherited TYPE.produce standing for struct.pack( 'B', value ).
+    ( Scaling the value - 0xff * value - is the same for 0 and 1 and overflows the octet for 0xFF: the tag that was written with success can
+    no longer be read. )"""
+    import copy
+    from .fold import run_block
+    res = Result( 'T-BOOL' )
+    src = ctx.src( 'server/enip/parser.py' )
+    fn = src.get( 'BOOL.produce' )
+    V = fn.args.args[-1].arg
+    class Sup( ast.NodeTransformer ):
+        def visit_Call( self, n ):
+            self.generic_visit( n )
+            if isinstance( n.func, ast.Attribute ) and n.func.attr == 'produce' and isinstance( n.func.value, ast.Call ) and dotted( n.func.value.func ) == 'super':
+                return ast.copy_location( ast.Call( func=ast.Name( id='pack_B', ctx=ast.Load()), args=n.args, keywords=[] ), n )
+            return n
+    body = [ ast.fix_missing_locations( Sup().visit( copy.deepcopy( st ))) for st in fn.body ]
+    def pack_B( v ):
+        try:
+            return struct.pack( 'B', v )
+        except ( struct.error, TypeError ) as exc:
+            raise NoFold( 'struct.pack( "B", %r ): %s' % ( v, exc ))
+    for v in ( False, True, 0, 1, 2, 0xFF ):
+        want = b'\xff' if v else b'\x00'
+        try:
+            out = run_block( body, { V: v, 'pack_B': pack_B }, ignore_calls=( 'log', ))
+            got = out.value if out.kind == 'return' else repr( out )
+        except NoFold as exc:
+            got = 'an exception ( %s )' % exc
+        if got == want:
+            res.ok( src, fn, 'BOOL.produce( %r ) == %r' % ( v, want ))
+        else:
+            res.bad( src, fn, 'BOOL.produce( %r ) yields %r' % ( v, got ),
+                     'a BOOL renders as 00 / FF for every value the Attribute can hold ( %r here ): an element stored as 0xFF by Set Attribute Single must stay readable by Read Tag / Read Tag Fragmented / Get Attribute Single' % want )
+    return res
